@@ -53,7 +53,7 @@ def run(rep, tier, seed):
     rnd = random.Random(seed)
     d = core.workdir("c15")
     try:
-        items = make_items(rnd, 2500 if tier == "quick" else 30000, every_offset=(tier == "thorough"))
+        items = make_items(rnd, 5000 if tier == "quick" else 30000, every_offset=(tier == "thorough"))
         recs = pkt.run_histories(items, d)
         for it, r in zip(items, recs):
             r["check"] = it["check"]
